@@ -72,7 +72,7 @@ AsInt(c, x) ==
     [] OTHER -> Rej
 KeyOutcome(c, x) ==
   CASE c \in {"I", "L", "U", "Q"} -> AsInt(c, x)
-    [] c = "O" -> IF x.t = "plain" THEN Rej ELSE Same
+    [] c = "O" -> IF x.t \in {"plain", "index"} THEN Rej ELSE Same
     [] c = "f" -> IF x.t = "bytes" /\ x.n = 2 THEN Same ELSE Rej
 AsFloat(x) ==
   CASE x.t = "float" -> LET r == F32(x.m, x.e) IN
